@@ -12,6 +12,7 @@ _BINDINGS_KEY = "bindings"
 _VALUE_KEY = "value"
 _TYPE_KEY = "type"
 _URI_TYPE = "uri"
+_LITERAL_TYPES = ["literal", "typed-literal"]
 
 _XML_LANG_FIELD = "xml:lang"
 
@@ -45,6 +46,8 @@ def query_endpoint_single_variable(endpoint_url, str_query, variable_id, max_ret
                                                fake_user_agent=fake_user_agent)
     result = []
     for row in result_query[_RESULTS_KEY][_BINDINGS_KEY]:
+        if row[variable_id].get(_TYPE_KEY) in _LITERAL_TYPES:
+            continue  # a literal cannot be a focus node nor a class
         an_elem = row[variable_id][_VALUE_KEY]
         result.append(an_elem)
     return result
